@@ -40,8 +40,8 @@ var matrixDims = []mdim{
 	{"snc", []string{"0", "1"}},
 	{"cp", []string{"0", "1"}},
 	{"cd", []string{"0", "1"}},
-	{"sbuf", []string{"0", "64", "4096", "65536", "262144"}},
-	{"cbuf", []string{"0", "64", "4096", "65536", "262144"}},
+	{"sbuf", []string{"0", "64", "4096", "65536", "262144", "3000", "70000"}},
+	{"cbuf", []string{"0", "64", "4096", "65536", "262144", "3000", "70000"}},
 	{"how", []string{"ctor", "optnames", "both", "names"}},
 }
 
